@@ -12,12 +12,15 @@
 (***************************************************************************)
 EXTENDS MCBase
 
-CONSTANTS MaxContent, MaxSeq, MaxTotal, BigPalettes
+CONSTANTS MaxContent, MaxSeq, MaxTotal, BigPalettes, BigRequests
 
 \* byte-marked argument values: every byte of every argument is distinct within a call
 Mark(seed, w) == [i \in 1..w |-> (seed * 16 + i * 7 + 3) % 256]
 MarkNZ(seed, w) == [i \in 1..w |-> ((seed * 16 + i * 7 + 3) % 255) + 1]
-Content(seed, n) == [i \in 1..n |-> (seed + i * 5) % 256]
+\* seed 3 is the end-tag look-alike: wherever a value is free it is chosen so that the 8-byte chunks of the tag read
+\* "type 0, size 8" - nothing may recognise structure by content instead of by the stored sizes
+EndLike(off, w) == [i \in 1..w |-> IF (off + i - 1) % 8 = 4 THEN 8 ELSE 0]
+Content(seed, n) == IF seed = 3 THEN EndLike(0, n) ELSE [i \in 1..n |-> (seed + i * 5) % 256]
 Text(seed, n) == [i \in 1..n |-> 97 + ((seed + i) % 26)]
 RECURSIVE Concat(_)
 Concat(ss) == IF ss = <<>> THEN <<>> ELSE ss[1] \o Concat(Tail(ss))
@@ -31,6 +34,7 @@ SizedArgs(name, seed) ==
      IF name = "vbe" /\ n = "mi.memory_model" THEN <<(seed + 3) % 8>>
      ELSE IF name = "console" /\ n = "console_flags" THEN U32Bytes(seed % 2)
      ELSE IF name = "relocatable" /\ n = "preference" THEN U32Bytes(seed % 3)
+     ELSE IF seed = 3 /\ FieldW(name, n) \in {4, 8} THEN EndLike(FieldOff(name, n), FieldW(name, n))
      ELSE Mark(seed + FieldOff(name, n), FieldW(name, n))]
 HFlags(seed) == [flags |-> U16Bytes(seed % 2)]
 
@@ -55,7 +59,7 @@ DstArgs(name, seed, n) ==
     [] name = "network" -> [content |-> Content(seed, n)]
     [] name = "efi_mmap" -> [desc_size |-> U32Bytes(40 + 8 * (seed % 2)), desc_version |-> U32Bytes(1), content |-> Content(seed, n)]
     [] name = "custom" -> [typ |-> <<22 + (seed % 200), 1, 0, 0>>, content |-> Content(seed, n)]
-    [] name = "info_req" -> [requests |-> [i \in 1..n |-> Mark(seed + i, 4)]] @@ HFlags(seed)
+    [] name = "info_req" -> [requests |-> [i \in 1..n |-> IF seed = 3 THEN EndLike(4 * (i - 1), 4) ELSE Mark(seed + i, 4)]] @@ HFlags(seed)
 DstCtorKinds == {n \in InfoKindNames : InfoKind(n).dst} \cup {"custom", "info_req"}
 
 \* ---- Ctor corpus -------------------------------------------------------------------------------------------
@@ -69,6 +73,8 @@ CtorParams ==
   \cup { [kind |-> "efi_mmap", seed |-> 1, n |-> len, variant |-> v] : v \in {"descs", "size0"}, len \in 0..2 }
   \cup { [kind |-> n, seed |-> 1, n |-> len, variant |-> v] : n \in {"cmdline", "bootloader", "module"}, len \in 0..3,
                                                              v \in {"nul", "nul2", "nul3", "inner"} }
+\* the fixed-size kinds: their constructors need no allocator and exist in every build (C07 in each, C08 across them)
+CtorSizedParams == { p \in CtorParams : p.variant \in {"sized", "new", "default"} }
 CtorArgs(p) ==
   CASE p.variant = "sized" -> IF p.kind \in SizedHdrKinds THEN SizedArgs(p.kind, p.seed) @@ HFlags(p.seed) ELSE SizedArgs(p.kind, p.seed)
     [] p.variant = "dst" -> DstArgs(p.kind, p.seed, p.n)
@@ -92,12 +98,13 @@ CtorCase(p) ==
 \* ---- Boxed corpus: all partitions of a content of total length 0..MaxTotal into <= 3 slices ---------------------
 Partitions == UNION { { <<a, b, t - a - b>> : a \in 0..t, b \in 0..t } : t \in 0..MaxTotal }
 BoxedParams == { [h |-> h, parts |-> <<x[1], x[2], x[3]>>, k |-> k]
-                 : h \in {"tag", "htag", "dummy"}, x \in {y \in Partitions : y[3] >= 0}, k \in 1..3 }
+                 : h \in {"tag", "htag", "dummy", "h12", "h4", "mb", "mb4"}, x \in {y \in Partitions : y[3] >= 0}, k \in 1..3 }
 SliceAt(start, n) == [i \in 1..n |-> (start + i) % 256]
 BoxedCase(p) ==
   LET sl == <<SliceAt(10, p.parts[1]), SliceAt(10 + p.parts[1], p.parts[2]), SliceAt(10 + p.parts[1] + p.parts[2], p.parts[3])>> IN
   [mem |-> <<>>, al |-> 0,
-   calls |-> <<[op |-> "new_boxed", h |-> p.h, typ |-> <<77, 1, 0, 0>>, slices |-> SubSeq(sl, 1, p.k), clone |-> TRUE]>>,
+   calls |-> <<[op |-> "new_boxed", h |-> IF p.h = "mb4" THEN "mb" ELSE p.h,
+                typ |-> CASE p.h = "mb" -> <<0, 0, 0, 0>> [] p.h = "mb4" -> <<4, 0, 0, 0>> [] OTHER -> <<77, 1, 0, 0>>, slices |-> SubSeq(sl, 1, p.k), clone |-> TRUE]>>,
    desc |-> [area |-> "boxed"] @@ p]
 
 \* ---- Builder corpus -------------------------------------------------------------------------------------------------
@@ -114,6 +121,7 @@ BuilderParams ==
   { [seq |-> q] : q \in UNION { SeqsOfLen(BSlots \X {1, 2}, n) : n \in 0..MaxSeq } }
   \cup { [seq |-> <<<<s, 1>>>>] : s \in AllSlots }
   \cup { [seq |-> <<<<s, 1>>, <<t, 2>>>>] : s \in AllSlots, t \in AllSlots }
+  \cup { [seq |-> <<<<s, 3>>>>] : s \in AllSlots } \cup { [seq |-> <<<<s, 3>>, <<t, 3>>>>] : s \in BSlots, t \in BSlots }
 BuilderCase(p) ==
   [mem |-> <<>>, al |-> 0,
    calls |-> <<[op |-> "b_new"]>> \o [i \in 1..Len(p.seq) |-> BSet(p.seq[i][1], p.seq[i][2])]
@@ -123,13 +131,18 @@ BuilderCase(p) ==
 \* ---- HBuilder corpus ------------------------------------------------------------------------------------------------------
 HSlots == HeaderKindNames \ {"hend"}
 HSlotArgs(slot, seed) ==
-  IF slot = "info_req" THEN DstArgs("info_req", seed, IF seed = 2 THEN 0 ELSE 3)
+  IF slot = "info_req" THEN DstArgs("info_req", IF seed >= 2000 THEN 1 ELSE seed, IF seed = 2 THEN 0 ELSE IF seed >= 2000 THEN seed ELSE 3)
   ELSE SizedArgs(slot, seed) @@ HFlags(seed)
 HBSet(slot, seed) == [op |-> "hb_set", slot |-> slot] @@ HSlotArgs(slot, seed)
 HSlotSeq == <<"info_req", "address", "entry", "console", "hfb", "module_align", "hefi_bs", "entry_efi32", "entry_efi64", "relocatable">>
 HBuilderParams ==
   { [arch |-> a, seq |-> SelectSeq([i \in 1..10 |-> <<HSlotSeq[i], 1>>], LAMBDA x : x[1] \in S)] : a \in {0, 4}, S \in SUBSET HSlots }
   \cup { [arch |-> 0, seq |-> q] : q \in UNION { SeqsOfLen({"entry", "info_req", "module_align"} \X {1, 2}, n) : n \in 2..MaxSeq } }
+  \* end-tag look-alike arguments: every slot alone, and all together
+  \cup { [arch |-> 0, seq |-> <<<<s, 3>>>>] : s \in HSlots } \cup { [arch |-> 4, seq |-> [i \in 1..10 |-> <<HSlotSeq[i], 3>>]] }
+  \* headers around and beyond 8192 bytes (the search window of find_header is not a limit of load): an information
+  \* request of n entries gives a header of 16 + 8 + 4n (+ padding) + 8 bytes: 8192 at n = 2040
+  \cup { [arch |-> 0, seq |-> <<<<"info_req", n>>>>] : n \in BigRequests }
 HBuilderCase(p) ==
   [mem |-> <<>>, al |-> 0,
    calls |-> <<[op |-> "hb_new", arch |-> p.arch]>> \o [i \in 1..Len(p.seq) |-> HBSet(p.seq[i][1], p.seq[i][2])]
